@@ -584,6 +584,91 @@ def stops_cases(tier):
                         cases.append({"entry": entry, "conf": conf, "mode": mode, "viz": viz, "ops": ops})
     return cases
 
+
+# ---- degenerate projects ------------------------------------------------------------------------------------
+DEGENERATE = ["no_types", "no_types_no_events", "no_commands", "only_events", "only_channels", "empty_file", "one_unit_struct"]
+
+
+def degenerate_desc(kind):
+    cmd = lambda n, params=(), ret="String", chans=(): {"name": n, "async": False, "rename_all": None,
+                                                        "params": [{"name": a, "type": t} for a, t in params], "ret": ret,
+                                                        "channels": [{"name": a, "msg": t} for a, t in chans]}
+    f = {"path": "lib.rs", "structs": [], "commands": [], "events": []}
+    if kind == "no_types":                 # commands and events over built-in types only: no struct, no enum
+        f["commands"] = [cmd("ping"), cmd("add", (("a", "u32"), ("b", "Option<String>")), "Result<Vec<u32>, String>")]
+        f["events"] = [{"name": "tick", "payload": "i32"}]
+    elif kind == "no_types_no_events":
+        f["commands"] = [cmd("ping")]
+    elif kind == "no_commands":            # a type and an event, no command
+        f["structs"] = [C._st("Lonely", [("x", "u32")])]
+        f["events"] = [{"name": "tick", "payload": "String"}]
+    elif kind == "only_events":
+        f["events"] = [{"name": "tick", "payload": "i32"}, {"name": "tock", "payload": "String"}]
+    elif kind == "only_channels":          # one command whose only argument is a channel of a built-in type
+        f["commands"] = [cmd("watch", (), "()", (("on_event", "String"),))]
+    elif kind == "one_unit_struct":
+        f["structs"] = [{"name": "Marker", "is_enum": False, "rename_all": None, "fields": []}]
+        f["commands"] = [cmd("mark", (("m", "Marker"),))]
+    return {"files": [f], "cfg": C.default_cfg()}
+
+
+def run_degenerate(case):
+    desc = degenerate_desc(case["kind"])
+    desc["cfg"]["validation_library"] = case["mode"]
+    desc["cfg"]["visualize_deps"] = bool(case["viz"])
+    obs, steps = [], []
+    with vlib.Sandbox("c14d") as sb:
+        w = C.World(sb, case["entry"], case.get("conf", "cfile"))
+        w.set_desc(desc)
+        for _ in range(4):
+            r = w.run()
+            obs.append({"decision": r["decision"], "rewritten": r["rewritten"], "removed": r["removed"],
+                        "changed_bytes": r["changed_bytes"], "files": sorted(w.stat()), "text": r["text"][-200:]})
+            steps.append(["run", [[0], []], False, None])
+    return desc, obs, steps
+
+
+def eval_degenerate(cases):
+    res = vlib.pmap(run_degenerate, cases)
+    traces = vlib.run_runner("c14-trace", [sx([C.sx_project(d), C.sx_cfg(d["cfg"]), st]) for d, _, st in res])
+    q, idx = [], []
+    for i, (_, obs, _) in enumerate(res):
+        for k, o in enumerate(obs):
+            dec = o["decision"] if o["decision"] in ("no_commands", "up_to_date", "regenerated", "failed") else "failed"
+            q.append(sx([dec, len(set(o["rewritten"]) | set(o["changed_bytes"]) | set(o["removed"]))]))
+            idx.append((i, k))
+    idem = dict(zip(idx, vlib.run_runner("c14-idem", q)))
+    outs = []
+    for i, (case, (d, obs, _), tr) in enumerate(zip(cases, res, traces)):
+        corr = ok = True
+        detail = None
+        for k, (o, mo) in enumerate(zip(obs, tr)):
+            touched = set(o["rewritten"]) | set(o["changed_bytes"]) | set(o["removed"])
+            if mo[0] == "no_commands":
+                # nothing is generated for a project without commands (the build path does not say so: it just writes nothing)
+                step_corr = o["decision"] in ("no_commands", "up_to_date") and not touched
+                step_ok = not touched
+            else:
+                step_corr = o["decision"] == mo[0]
+                step_ok = (o["decision"] == "regenerated") if k == 0 else idem[(i, k)] == "true"
+            if (not step_corr or not step_ok) and detail is None:
+                detail = {"step": k, "impl": {x: o[x] for x in ("decision", "rewritten", "removed", "files", "text")}, "model": mo[0]}
+            corr &= step_corr
+            ok &= step_ok
+        dd = detail or {}
+        dd["decisions"] = [o["decision"] for o in obs]
+        if detail is not None:
+            dd["sources"] = {f["path"]: C.render_rs(f) for f in d["files"]}
+            dd["config"] = C.render_cfg(d["cfg"])
+        outs.append(Outcome(case, corr, ok, detail=dd, nontrivial=True))
+    return outs
+
+
+def degenerate_cases():
+    return [{"kind": k, "entry": entry, "conf": conf, "mode": mode, "viz": viz}
+            for k in DEGENERATE for entry in ("cli", "build") for conf in ("cfile", "tauri") for mode in ("none", "zod")
+            for viz in (False, True)]
+
 # ---- case sets -------------------------------------------------------------------------------------------
 
 def witnesses():
@@ -686,6 +771,7 @@ def run(rep):
     rep.extra["spelling_cases"] = {"total": len(sc), "by_length": {str(k): sum(1 for c in sc if len(c["seq"]) == k) for k in (2, 3, 4, 5)}}
     rep.add("spelling", eval_spelling(sc))
     rep.add("stops", eval_stops(stops_cases(rep.tier)))
+    rep.add("degenerate", eval_degenerate(degenerate_cases()))
     ac = alternation_cases(rep.tier, rng)
     rep.extra["alternation_cases"] = len(ac)
     rep.add("alternation", eval_alternation(ac))
@@ -698,6 +784,8 @@ def replay(rep, payload):
         c = dict(it["case"])
         if it["stream"] == "force":
             rep.add("force", eval_force([c]))
+        elif it["stream"] == "degenerate":
+            rep.add("degenerate", eval_degenerate([c]))
         elif it["stream"] == "stops":
             rep.add("stops", eval_stops([c]))
         elif it["stream"] == "alternation":
